@@ -13,14 +13,15 @@
    HaplotagPhase (U, B -> W).  Invariants on the final state: the three clauses of the
    property.  The same run emits every world (Emit) for the replay on the real commands. *)
 EXTENDS TagPhaseChain, Json, TLC, SequencesExt
-CONSTANTS N, NReads, MaxSets, WithKeep
+CONSTANTS N, NReads, MaxSets, WithKeep, Multi
 VARIABLES world, fs, have, step
 
 vars == <<world, fs, have, step>>
 (* have = the files that exist; a missing file has the placeholder content <<>> *)
 
 (* per site: truth tuple, and how V0 writes it *)
-SiteOpts == { [t |-> t, mode |-> m] : t \in { <<0, 1>>, <<1, 0>> }, m \in {"phased", "unphased"} }
+HetTruths == { <<0, 1>>, <<1, 0>> } \cup (IF Multi THEN { <<1, 2>>, <<2, 1>>, <<0, 2>>, <<2, 0>> } ELSE {})
+SiteOpts == { [t |-> t, mode |-> m] : t \in HetTruths, m \in {"phased", "unphased"} }
             \cup { [t |-> <<1, 1>>, mode |-> "hom"] }
 
 (* set ids along the sites: contiguous blocks numbered from the left *)
@@ -108,11 +109,11 @@ InvPremise == step \in {"run", "done"} => SetsSeparated(world.reads, << fs.V0 >>
 InvOrderRestored == Done => OrderRestored(fs.V0, fs.U, fs.W)
 InvSetOfCoveringReads == Done => SetOfCoveringReads(world.reads, fs.B, 1, fs.U, fs.W)
 InvPrephasedUntouched == Done => PrephasedUntouched(fs.U, fs.W)
-(* sanity of the design: an error-free read that sees a phased heterozygous site is tagged with that
-   site's set and the haplotype it copies; every such site covered by a read is phased again *)
+InvAllelesKept == Done => AllelesKept(fs.V0, fs.U, fs.W)
+(* sanity of the design: every phased heterozygous site (multi-allelic ones too) covered by a tagged read is phased again *)
 InvCoveredIsRephased ==
     Done => \A j \in 1..N :
-               (fs.V0[j].ph /\ Het(fs.V0[j].al) /\ \E r \in DOMAIN world.reads : j \in CovSet(world.reads[r]))
+               (fs.V0[j].ph /\ Het(fs.V0[j].al) /\ \E r \in DOMAIN world.reads : j \in CovSet(world.reads[r]) /\ fs.B[r].hp # Absent)
                   => fs.W[j].ph /\ fs.W[j].ps = fs.V0[j].ps
 
 (* for the emission run: worlds only, the chain itself is not explored *)
